@@ -1,3 +1,4 @@
+import G3D.Proofs.KernelsTie
 import G3D.Props.C17
 #print axioms G3D.Props.C17.general_form_contains_iff
 #print axioms G3D.Props.C17.general_form_roundtrip
@@ -7,3 +8,8 @@ import G3D.Props.C17
 #print axioms G3D.Props.C17.point_normal_roundtrip
 #print axioms G3D.Props.C17.line_forms
 #print axioms G3D.Props.C17.line_parametric_roundtrip
+#print axioms G3D.KernelsTie.generalForm_tie
+#print axioms G3D.KernelsTie.pointNormal_tie
+#print axioms G3D.KernelsTie.lineParametric_tie
+#print axioms G3D.KernelsTie.linePP_tie
+#print axioms G3D.KernelsTie.lineCtorReject_iff
